@@ -329,7 +329,7 @@ Proof.
     { eapply Forall_impl; [|exact IH]. cbn beta. intros x [A B]. split; [exact A|right; exact B]. }
     destruct (py_eq ty (VStr (zs "Image"))) eqn:Q; [|exact IH'].
     constructor; [|exact IH']. split; [unfold fld_is; rewrite Ety; exact Q|left; reflexivity]. }
-  rewrite E. cbn [bind]. destruct aff as [|a0 aff']; [exists [], s; repeat split; [reflexivity|exact HJ]|].
+  rewrite E. cbn [bind]. destruct aff as [|a0 aff']; [exists [], s; split; [reflexivity|split; [reflexivity|exact HJ]]|].
   assert (Hnamed : Forall (fun c => col_named s c = true) (a0 :: aff')).
   { eapply Forall_impl; [|exact Himg]. cbn beta. intros c [A B]. apply (Hcol c B). exact A. }
   destruct (modify_cols_ok s (zs "type") (map (fun c => (c, VStr (zs "Attachments"))) (a0 :: aff'))) as [mods [-> Hm]].
